@@ -20,6 +20,15 @@ import (
 type vServer struct {
 	h        http.Handler
 	compiled bool
+	stop     func() // ends the WebSocket hub goroutine the product starts with every server
+}
+
+// close releases what the server started (drivers that build thousands of servers call it)
+func (s *vServer) close() {
+	if s != nil && s.stop != nil {
+		s.stop()
+		s.stop = nil
+	}
 }
 
 // vServe builds the handler `glyph run` would serve. interpret=true is --interpret.
@@ -28,13 +37,20 @@ func vServe(src string, interpret bool) (*vServer, error) {
 	if err != nil {
 		return nil, err
 	}
-	useCompiler, _, _, router, err := setupRoutes(module, "/nonexistent/verif.glyph", interpret)
+	useCompiler, _, ws, router, err := setupRoutes(module, "/nonexistent/verif.glyph", interpret)
 	if err != nil {
+		if ws != nil {
+			ws.GetHub().Shutdown()
+		}
 		return nil, err
 	}
 	mux := http.NewServeMux()
 	mux.HandleFunc("/", createHandler(router))
-	return &vServer{h: mux, compiled: useCompiler}, nil
+	srv := &vServer{h: mux, compiled: useCompiler}
+	if ws != nil {
+		srv.stop = func() { ws.GetHub().Shutdown() }
+	}
+	return srv, nil
 }
 
 type vResp struct {
